@@ -19,6 +19,9 @@ SLACK = max(0.25, 0.5 * T)
 OID = (1, 3, 6, 1, 2, 1, 1, 3, 0)
 
 
+CROWD = {}
+
+
 class Drift(threading.Thread):
     """Measures how late 10 ms sleeps wake up (scheduler delay) while a case runs."""
 
@@ -62,6 +65,11 @@ def schedules(tier):
     # signals delivered to the thread that is blocked in the request (sync client): whether the call then raises
     # OSError(EINTR) or carries on, it must not wait a fresh timeout per signal
     out.append({"name": "S-signals", "signals": [0.6, 1.2, 1.8], "strays": [], "reply": None, "expect": "timeout", "sync_only": True})
+    # a crowd: 20 other sync sessions of the same process, each in its own thread, are blocked waiting for replies that
+    # never come (timeout 2.5 T) while this session makes its request - process-wide resources (pooled buffers, locks)
+    # held by waiting sessions must not make this call wait for *their* timeouts
+    out.append({"name": "K-crowd-value", "crowd": 20, "strays": [], "reply": 0.2, "expect": "value"})
+    out.append({"name": "K-crowd-silent", "crowd": 20, "strays": [], "reply": None, "expect": "timeout"})
     out.append({"name": "H-timeout-then-late-reply", "seq": [
         {"name": "H1a", "strays": [0.6], "reply": None, "expect": "timeout"},
         {"name": "H1b", "strays": [], "reply": 0.75, "expect": "value"},
@@ -112,9 +120,36 @@ def run_case(cfg, agent, drv, sch, serial):
                 except Exception:
                     pass
         threading.Thread(target=kicker, daemon=True).start()
+    crowd = []
+    if sch.get("crowd"):
+        from gufo.snmp import SnmpVersion
+        from gufo.snmp.sync_client import SnmpSession as SyncSession
+        if "silent_port" not in CROWD:
+            import socket
+            CROWD["sock"] = socket.socket(socket.AF_INET, socket.SOCK_DGRAM)
+            CROWD["sock"].bind(("127.0.0.1", 0))
+            CROWD["silent_port"] = CROWD["sock"].getsockname()[1]
+        started = []
+
+        def waiter():
+            try:
+                with SyncSession("127.0.0.1", port=CROWD["silent_port"], community="public", version=SnmpVersion.v2c, timeout=2.5 * T) as ss:
+                    started.append(1)
+                    ss.get("1.3.6.1.2.1.1.1.0")
+            except BaseException:
+                pass
+        crowd = [threading.Thread(target=waiter, daemon=True) for _ in range(sch["crowd"])]
+        for th in crowd:
+            th.start()
+        t_w = time.perf_counter()
+        while len(started) < sch["crowd"] and time.perf_counter() - t_w < 1.0:
+            time.sleep(0.005)
+        time.sleep(0.05)   # all of them are inside their receive wait now
     t0 = time.perf_counter()
     out = drv.call("get", B.oid_text(OID))
     dur = time.perf_counter() - t0
+    for th in crowd:
+        th.join(3.0)
     d.stop_flag = True
     d.join(0.5)
     # wait for the agent to finish its schedule, then collect its own send log
